@@ -61,6 +61,12 @@ CHECKS = {
         note="Trusted: z3, CPython (running the programs), rsx, pybind. Genuine defects found are listed in known_findings.json (default-expression, class-body fall-through, comprehension, lambda, nonlocal, import-then-rebind). Bound: corpus K01, one-letter identifiers, docs=False.",
         design="§5 C01",
     ),
+    "C15": dict(
+        level="other",
+        text="Solver-decided, path-exhaustive within stated bounds (Pattern B): the scope visitors of pyobjectsdef and the scope classes of pyscopes (GlobalScope/FunctionScope/ClassScope/ComprehensionScope, lookup/_propagated_lookup, _HoldingScopeFinder) run on the modules of corpus K15 (one skeleton per binding construct and nesting combination) with symbolic identifier spellings, so that z3 enumerates every way the same spelling can be bound at several levels; at each path witness rope's scope tree (kind, first/last line), per-scope name tables, global/nonlocal handling, scope.lookup() of every name used in every scope and get_inner_scope_for_line over every line are compared with the reference binder (language rules, cross-checked with symtable).",
+        note="Trusted: z3, CPython, rsx, pybind. Lambda scopes are not demanded (not listed by the property). Six classes of genuine defects are known findings (positional-only/keyword-only parameters, match captures, nonlocal, global declarations, walrus in comprehensions, comprehensions inside functions); each discrepancy category must be known for a failure to be suppressed.",
+        design="§5 C15",
+    ),
 }
 
 NOT_YET = "check not built yet (see DESIGN.md §5 for the planned decision procedure)"
